@@ -67,9 +67,9 @@ func printable(n int) string {
 	return string(b)
 }
 
-func prim(s string) Ty { return Ty{Simple: s} }
-func arrOf(t Ty) Ty    { return Ty{Arr: &t} }
-func arrKw(t Ty) Ty    { return Ty{Arr: &t, ArrayKeyword: true} }
+func prim(s string) Ty        { return Ty{Simple: s} }
+func arrOf(t Ty) Ty           { return Ty{Arr: &t} }
+func arrKw(t Ty) Ty           { return Ty{Arr: &t, ArrayKeyword: true} }
 func mapOf(k string, v Ty) Ty { return Ty{MapK: k, MapV: &v} }
 
 func idx(v uint8) []byte {
@@ -163,7 +163,7 @@ func structDocs(name string) Def {
 	d.BlockDoc = " block " + printable(1) + " "
 	d.Doc = " line"
 	d.Fields[0].Doc = " fd " + printable(1)
-	d.Fields[1].Depr, d.Fields[1].DeprM = true, "old " + printable(1)
+	d.Fields[1].Depr, d.Fields[1].DeprM = true, "old "+printable(1)
 	return d
 }
 
